@@ -2131,7 +2131,10 @@ bool TypeChecker::checkExpression(expression_t expr)
 
         bool result = true;
         type_t type = expr[0].get_type();
-        size_t parameters = type.size() - 1;
+        if (!type.is_function() && !type.is_function_external())
+            return false;
+        // a wrong number of arguments has been reported by the builder already
+        size_t parameters = std::min<size_t>(type.size() - 1, expr.get_size() - 1);
         for (uint32_t i = 0; i < parameters; i++) {
             type_t parameter = type[i + 1];
             expression_t argument = expr[i + 1];
